@@ -20,6 +20,9 @@ func driveExplore(seed int64, tier, out, replay string) {
 		if os.Getenv("EXPLORE_PAYLOAD") != "" {
 			w = handWorldPayload()
 		}
+		if os.Getenv("EXPLORE_MATRIX") != "" {
+			w = handWorldMatrix()
+		}
 		if ws := os.Getenv("EXPLORE_WORLD"); ws != "" {
 			var seedv int64
 			fmt.Sscan(ws, &seedv)
